@@ -33,7 +33,9 @@ def tie(ctx, progs, spec, variants, tag='mt', step=1):
     ok, out = C.ensure_oracle(ctx, 'mvp', TARGETS, ['Mvp', 'Isa', 'Gen', 'Base', 'Comp'])
     if not ok:
         return [], [{'file': 'coq/theories/Extract/MvpOracle.v', 'line': None, 'lemma': 'extraction of the cycle-level models', 'error': out[-800:]}], stats
-    sel = [k for k in range(0, len(progs), step) if spec[k][0] == 'ok']
+    # long eviction programs cost seconds each on the variants that exhaust their budget: thorough tier only
+    heavy = ('evict', 'evictlf') if ctx.tier == 'quick' else ()
+    sel = [k for k in range(0, len(progs), step) if spec[k][0] == 'ok' and getattr(progs[k], 'profile', '') not in heavy]
     cex, broken = [], []
     for v in vs:
         for par in MODEL_VARIANTS[v]:
